@@ -23,11 +23,19 @@ FIELDS = {"obj:Node": {"type": "ref:obj:Type", "constant_result": "int", "pos": 
 DIVLIKE = ("TrueDivide", "FloorDivide", "Divide", "Remainder")
 
 
+def _local(e, name):
+    from dv.pyfe import StaleContract
+    v = e.vars.get(name)
+    if v is None:
+        raise StaleContract("the fragment no longer binds a local called %r (the contract reads the decision off it)" % name)
+    return v
+
+
 def _post(e):
-    if "extra_args" not in e.vars:
+    if "$fell_through" not in e.vars:
         return z3.BoolVal(True)            # `return None`: no helper is selected
-    numval = e.vars["numval"].addr
-    is_float = e.vars["is_float"].b
+    numval = _local(e, "numval").addr
+    is_float = _local(e, "is_float").b
     c = e.h.fld("constant_result", numval)
     divlike = Or(*[e.operator == intern_id(op) for op in DIVLIKE])
     return And(Implies(Not(is_float), And(c >= -(2 ** 30), c <= 2 ** 30)),
@@ -64,9 +72,7 @@ DIVNODE = z3.Function("isinstance_DivNode", z3.IntSort(), z3.BoolSort())       #
 
 def _post_flag(e):
     """constant <op> x with a division-like operator: the helper is told to CHECK for a zero divisor, unless the node says cdivision"""
-    zdc = e.vars.get("zerodivision_check")
-    if zdc is None:
-        return z3.BoolVal(False)
+    zdc = _local(e, "zerodivision_check")
     return zdc.b == (e.h0.fld("cdivision", e.node) == 0)
 
 
